@@ -25,8 +25,16 @@ namespace Irismod.Service
 open Irismod Irismod.Sdk
 
 abbrev CtxId := String
-abbrev ReqId := String
 abbrev Coins := List (Denom × Nat)
+
+/-- a request id, kept structured: `GenerateRequestID` concatenates exactly these four fields
+(context id, batch counter, request height, index in the batch) in fixed width -/
+structure ReqId where
+  ctx   : CtxId
+  batch : Nat
+  h     : Int
+  idx   : Nat
+  deriving DecidableEq, Repr, Inhabited
 
 /-- module accounts (symbolic names shared with the harness) -/
 def depAcc : Addr := "Mdep"
@@ -219,12 +227,24 @@ def hexN (width : Nat) (n : Nat) : String :=
 def ctxIdOf (tx : String) (idx : Nat) : CtxId :=
   Line.hexOfBytes (Sha256.sum tx.toUTF8) ++ hexN 16 idx
 
-/-- key prefix shared by the requests / responses / active markers of one batch -/
-def ridPrefix (id : CtxId) (batch : Nat) : String := id ++ hexN 16 batch
-
 /-- `GenerateRequestID` -/
-def reqIdOf (id : CtxId) (batch : Nat) (h : Int) (i : Nat) : ReqId :=
-  ridPrefix id batch ++ hexN 16 h.toNat ++ hexN 4 i
+def reqIdOf (id : CtxId) (batch : Nat) (h : Int) (i : Nat) : ReqId := ⟨id, batch, h, i⟩
+
+/-- the 58-byte request id in hex, as the store keys and messages carry it -/
+def ReqId.toHex (r : ReqId) : String := r.ctx ++ hexN 16 r.batch ++ hexN 16 r.h.toNat ++ hexN 4 r.idx
+
+/-- the requests / responses / active markers of one batch share the key prefix (context id, batch) -/
+def ReqId.inBatch (r : ReqId) (id : CtxId) (batch : Nat) : Bool := r.ctx = id && r.batch = batch
+
+/-- store iteration order inside one batch prefix: request height, then index -/
+def ReqId.le (a b : ReqId) : Bool := decide (a.h < b.h) || (decide (a.h = b.h) && decide (a.idx ≤ b.idx))
+
+def insertBy {α} (le : α → α → Bool) (x : α) : List α → List α
+  | [] => [x]
+  | h :: t => if le x h then x :: h :: t else h :: insertBy le x t
+
+/-- insertion sort (kept elementary so that membership lemmas are one-liners) -/
+def isort {α} (le : α → α → Bool) (l : List α) : List α := l.foldr (insertBy le) []
 
 def zeroTime : Int := -62135596800
 
@@ -693,7 +713,7 @@ def addEarnedFee (s : State) (provider : Addr) (d : Denom) (amt : Nat) : Option 
                   oearned := bump s.oearned (AMap.getD s.owners provider "") d (amt - tax) }
 
 def respOutputs (s : State) (id : CtxId) (batch : Nat) : Nat :=
-  (s.resps.filter (fun e => e.1.startsWith (ridPrefix id batch) && e.2.hasOut)).length
+  (s.resps.filter (fun e => e.1.inBatch id batch && e.2.hasOut)).length
 
 /-- `Callback`: reads the stored context -/
 def callback (s : State) (id : CtxId) : State :=
@@ -709,14 +729,15 @@ inductive OutKind where
   | none | good | bad
   deriving DecidableEq, Repr, Inhabited
 
-def stepRespond (s : State) (provider : Addr) (rid0 : String) (code : Nat) (out : OutKind) (resOk : Bool) : R :=
+def stepRespond (s : State) (provider : Addr) (rid0 : Option ReqId) (code : Nat) (out : OutKind) (resOk : Bool) : R :=
   if !(validAddr provider) then rej "address" else
-  if !(rid0.length = 116 && isHex rid0) then rej "request id" else
+  match rid0 with
+  | none => rej "request id"
+  | some rid =>
   if !resOk ∨ !(code = 200 ∨ code = 400 ∨ code = 500) then rej "result" else
   if code = 200 ∧ out = .none then rej "output required" else
   if code ≠ 200 ∧ out ≠ .none then rej "output forbidden" else
   if out = .bad then rej "output invalid" else
-  let rid := rid0.toLower
   match getRequest s rid with
   | none => rej "unknown request"
   | some (rq, rc) =>
@@ -898,11 +919,11 @@ def expireReq (s : State) (rid : ReqId) : State :=
     { s2 with active := s2.active.filter (· ≠ rid) }
 
 def activeOf (s : State) (id : CtxId) (batch : Nat) : List ReqId :=
-  Line.sortStrings (s.active.filter (fun r => r.startsWith (ridPrefix id batch)))
+  isort ReqId.le (s.active.filter (fun r => r.inBatch id batch))
 
 /-- `CleanBatch` -/
 def cleanBatch (s : State) (id : CtxId) (batch : Nat) : State :=
-  let doomed := (s.reqs.filter (fun e => e.1.startsWith (ridPrefix id batch))).map (·.1)
+  let doomed := (s.reqs.filter (fun e => e.1.inBatch id batch)).map (·.1)
   { s with reqs := s.reqs.filter (fun e => !(doomed.contains e.1)),
            resps := s.resps.filter (fun e => !(doomed.contains e.1)) }
 
@@ -924,7 +945,7 @@ def expireCtx (s : State) (id : CtxId) : State :=
   cleanBatch s4 id rc.batchCounter
 
 def dueIds (q : List (Int × CtxId)) (h : Int) : List CtxId :=
-  Line.sortStrings ((q.filter (fun e => e.1 = h)).map (·.2))
+  isort (fun a b : String => decide (a ≤ b)) ((q.filter (fun e => e.1 = h)).map (·.2))
 
 /-- the real `EndBlocker`: expired batches first, then new batches -/
 def endBlock (s : State) : State :=
@@ -954,7 +975,7 @@ inductive Op where
       (repeated : Bool) (freq : Nat) (total : Int) (inputOk : Bool)
   | mcall (tx : String) (consumer : Addr) (svc : String) (providers : List Addr) (cap : Coins) (timeout : Int)
       (repeated : Bool) (freq : Nat) (total : Int) (inputOk : Bool) (paused : Bool) (thr : Nat) (modName : String)
-  | respond (provider : Addr) (rid : String) (code : Nat) (out : OutKind) (resOk : Bool)
+  | respond (provider : Addr) (rid : Option ReqId) (code : Nat) (out : OutKind) (resOk : Bool)
   | withdraw (owner : Addr) (provider : String)
   | withdrawK (owner : Addr) (provider : Option Addr)
   | pause (consumer : Addr) (id : String)
